@@ -43,7 +43,7 @@ func init() {
 		Cases: func(tier string) int {
 			switch tier {
 			case "thorough":
-				return c18Truncations() + 600000
+				return c18Truncations() + 1000000
 			case "race":
 				return c18Truncations() + 20000
 			}
